@@ -28,25 +28,25 @@ type WorldOp struct {
 }
 
 type CallRec struct {
-	Name string
-	Args []Val
-	Res  Val
-	Seq  int
+	Name  string
+	Args  []Val
+	Res   Val
+	Seq   int
 	PreW  map[string]string
 	PostW map[string]string
 }
 
 type State struct {
-	cells  map[int]Val
-	pc     []string
-	worlds map[int]*World
-	defs   []string  // definitional facts (always true of the terms they mention)
-	calls  []CallRec // ghost log of calls (contracted / intrinsic externals of interest)
-	dead   bool
-	loopMark int // index into calls at the last loop entry
-	retInLoops []int // ordinals of the loops whose body contains the return that ended this path
-	panics string // non-empty: path ended in panic (reason)
-	trace  []string
+	cells      map[int]Val
+	pc         []string
+	worlds     map[int]*World
+	defs       []string  // definitional facts (always true of the terms they mention)
+	calls      []CallRec // ghost log of calls (contracted / intrinsic externals of interest)
+	dead       bool
+	loopMark   int    // index into calls at the last loop entry
+	retInLoops []int  // ordinals of the loops whose body contains the return that ended this path
+	panics     string // non-empty: path ended in panic (reason)
+	trace      []string
 }
 
 func newState() *State {
@@ -118,19 +118,19 @@ type Obligation struct {
 	Pos    string
 	Cover  bool // cover query: satisfiable expected
 	// filled by discharge
-	Status  string // unsat (discharged), sat, unknown, timeout
-	Solver  string
-	Seconds float64
-	Model   string
-	File    string
-	decls   *Decls
-	extra   []string // extra assertions (key axioms)
-	Bounded bool
-	Confirm string
-	Known   bool
+	Status      string // unsat (discharged), sat, unknown, timeout
+	Solver      string
+	Seconds     float64
+	Model       string
+	File        string
+	decls       *Decls
+	extra       []string // extra assertions (key axioms)
+	Bounded     bool
+	Confirm     string
+	Known       bool
 	precomputed bool
-	defs    []string
-	env     *Env
+	defs        []string
+	env         *Env
 }
 
 func (o *Obligation) Name() string { return fmt.Sprintf("%s/%s:%s", o.Fn, o.Kind, o.Label) }
@@ -150,34 +150,34 @@ type Env struct {
 	paths    int
 	maxPaths int
 
-	curName   string
-	topFn     *ssa.Function
-	nopanic   bool
-	trusted   map[string]int
-	dropped   map[string]int
-	inlined   map[string]int
-	havocked  map[string]int
-	notes     map[string]int
-	keyTerms  map[string][]Seg // key term -> segments, for pairwise axioms
-	shapes    map[string]string
-	bounded   bool
-	err       error
-	callSeq   int
-	inlineDep int
-	specMode  int // >0 while evaluating a contract expression (pure evaluation)
-	noContract map[*ssa.Function]bool
-	oldState  *State
-	curPos    token.Pos
-	unwrapped map[string]Val
-	splitInfo map[string]*splitRec
-	termFacts map[string][]string
-	nonNil    map[string]bool
-	topVars   map[string]Val
-	curFrame  *Frame
-	callSiteHits map[string]int
-	clauseErrs []string
+	curName       string
+	topFn         *ssa.Function
+	nopanic       bool
+	trusted       map[string]int
+	dropped       map[string]int
+	inlined       map[string]int
+	havocked      map[string]int
+	notes         map[string]int
+	keyTerms      map[string][]Seg // key term -> segments, for pairwise axioms
+	shapes        map[string]string
+	bounded       bool
+	err           error
+	callSeq       int
+	inlineDep     int
+	specMode      int // >0 while evaluating a contract expression (pure evaluation)
+	noContract    map[*ssa.Function]bool
+	oldState      *State
+	curPos        token.Pos
+	unwrapped     map[string]Val
+	splitInfo     map[string]*splitRec
+	termFacts     map[string][]string
+	nonNil        map[string]bool
+	topVars       map[string]Val
+	curFrame      *Frame
+	callSiteHits  map[string]int
+	clauseErrs    []string
 	maybeNilIface map[string]bool
-	applying  map[*Contract]bool
+	applying      map[*Contract]bool
 }
 
 func newEnv(p *Program, cx *Contracts, cfg *PropConfig) *Env {
